@@ -106,6 +106,10 @@ def run_real(scn):
             # asking the catalog about paths that were never registered registers nothing
             for k in range(scn['_foreign_lookup']):
                 fs.catalog.get_source_id(os.path.join(tmpdir, f'never-registered-{k}.log'))
+        # the catalog's source ids (results are filed by them): id of every file, and the path
+        # each id maps back to
+        ids = [[os.path.relpath(p, tmpdir), fs.catalog.get_source_id(p)] for p in fs.files]
+        back = [os.path.relpath(fs.catalog.source_id_to_path(i) or '?', tmpdir) for _p, i in ids]
         npar = fs.num_parallel_tasks
         obs = S.run_searcher(built, fs, S.scenario_K(scn))
         recs = []
@@ -115,6 +119,7 @@ def run_real(scn):
                     pid, path, t0, t1 = line.rstrip('\n').split('\t')
                     recs.append([int(pid), os.path.relpath(path, tmpdir), float(t0), float(t1)])
         return {'recs': recs, 'caller': os.getpid(), 'npar': npar, 'cpus': os.cpu_count(),
+                'ids': ids, 'ids_back': back,
                 'err': obs.get('err'), 'files': [os.path.relpath(p, tmpdir) for p in fs.files]}
     finally:
         TK.SearchTask.execute = orig
@@ -208,6 +213,18 @@ def judge_run(rep, item, mo, mplan):
         return
     if fault and impl['err']:
         return
+    # source ids: distinct, and each maps back to its own file (directly); equal to the model's
+    if len({i for _p, i in impl['ids']}) != len(impl['ids']) or \
+            impl['ids_back'] != [p for p, _i in impl['ids']]:
+        rep.fail('failing-input', scn, f"source ids {impl['ids']} map back to {impl['ids_back']}",
+                 impl=impl['ids'])
+        return
+    mids = item.get('mids')
+    if mids is not None and [m[0] if m else None for m in mids['ids']] != \
+            [i for _p, i in impl['ids']]:
+        rep.fail('correspondence-broken', scn,
+                 f"source ids impl={impl['ids']} model={mids['ids']}", impl=impl['ids'], model=mids)
+        return
     if mplan != ['pool', impl['npar']]:
         rep.fail('correspondence-broken', scn, f"plan impl pool({impl['npar']}) model {mplan}",
                  impl=impl, model=mplan)
@@ -264,6 +281,18 @@ def run(tier, seed, replay_case=None):
                       'cpus': [it['impl']['cpus']], 'files': [nfiles]})
     mos = drv.run(cases)
     mps = drv.run(plans)
+    # the catalog history of each run (registrations by file path, then the foreign lookups)
+    # through the Lean model of the source-id table (SkModel.SourceIds, C02_filed_under_own_path)
+    idcases = []
+    for it in items:
+        scn = it['scn']
+        ops = [{'op': 'register', 'search': r[0], 'expanded': [scn['files'][r[1]]['name']]}
+               for r in scn['regs'] if isinstance(r[1], int)]
+        ops += [{'op': 'lookup', 'path': f'never-registered-{k}.log'}
+                for k in range(scn.get('_foreign_lookup', 0))]
+        idcases.append({'kind': 'catids', 'ops': ops, 'queries': it['impl'].get('files', [])})
+    for it, mi in zip(items, drv.run(idcases)):
+        it['mids'] = mi['model']
     for it, mo, mp in zip(items, mos, mps):
         judge_run(rep, it, mo['model'], mp['model'][0][4])
     rep.assumptions = ["ProcessPoolExecutor(max_workers=n) spawns at most n worker processes "
